@@ -541,6 +541,29 @@ func (s *sim) script() {
 				return
 			}
 		}
+	case "laggard":
+		// future-round flooding: every 8th step each faulty validator sends nil votes for the two rounds above the highest
+		// round any correct validator has reached, to everybody. Faulty power alone must never make anybody skip.
+		if len(s.byz) == 0 || s.step%8 != 0 {
+			return
+		}
+		for _, i := range s.live() {
+			p := s.nodes[i]
+			top := types.Round(0)
+			for _, j := range s.correct {
+				if q := s.nodes[j]; q.height == p.height && q.rec(q.height).round > top {
+					top = q.rec(q.height).round
+				}
+			}
+			for _, b := range s.byz {
+				kind := byte('v')
+				if s.step%16 == 0 {
+					kind = 'c'
+				}
+				s.inject(msg{kind: kind, h: p.height, r: top + 1, from: b, id: idk{isNil: true}}, bit(i), "future-round flood")
+				s.inject(msg{kind: kind, h: p.height, r: top + 2, from: b, id: idk{isNil: true}}, bit(i), "future-round flood")
+			}
+		}
 	case "lockstarve":
 		if pr.scriptDone || len(s.byz) == 0 || s.step >= pr.holdUntil {
 			return
